@@ -708,6 +708,65 @@ func subjects() []*subject {
 		{"WithKey", false, false, func(o interface{}) interface{} { return o.(*rgsw.Evaluator).WithKey(f.evk) }},
 	}})
 
+	// level views of the samplers: a view samples from the same distribution as its receiver
+	{
+		rq := p.RingQ()
+		class := func(o interface{}) (string, error) {
+			pol := o.(ring.Sampler).ReadNew()
+			lvl := pol.Level()
+			q := rq.SubRings[0].Modulus
+			nnz, small, maxAbs := 0, true, uint64(0)
+			for j, c := range pol.Coeffs[0] {
+				a := c
+				if a > q/2 {
+					a = q - a
+				}
+				if a != 0 {
+					nnz++
+				}
+				if a > maxAbs {
+					maxAbs = a
+				}
+				// the same integer on every modulus of the view
+				for i := 1; i <= lvl; i++ {
+					qi := rq.SubRings[i].Modulus
+					ci := pol.Coeffs[i][j]
+					if c > q/2 {
+						small = small && qi-ci == q-c
+					} else {
+						small = small && ci == c
+					}
+				}
+			}
+			cls := "wide"
+			switch {
+			case maxAbs <= 1:
+				cls = "ternary"
+			case maxAbs <= 64:
+				cls = "narrow"
+			}
+			w := "dense"
+			if nnz == 32 {
+				w = "weight32"
+			} else if nnz < rq.N()/8 {
+				w = "sparse"
+			}
+			return fmt.Sprintf("%s/%s/consistent=%v", cls, w, small || cls == "wide"), nil
+		}
+		for _, sd := range []struct {
+			n string
+			d ring.DistributionParameters
+		}{{"Ternary{H:32}", ring.Ternary{H: 32}}, {"Ternary{P:0.5}", ring.Ternary{P: 0.5}}, {"DiscreteGaussian", ring.DiscreteGaussian{Sigma: 3.2, Bound: 19.2}}, {"Uniform", ring.Uniform{}}} {
+			sm, err := ring.NewSampler(keyedPRNG(), rq, sd.d, false)
+			tr.Must(err)
+			out = append(out, &subject{name: "ring.Sampler/" + sd.n, orig: sm, ops: []op{{"ReadNew class", class}}, copies: []copyKind{
+				{"AtLevel(max)", false, false, func(o interface{}) interface{} { return o.(ring.Sampler).AtLevel(rq.Level()) }},
+				{"AtLevel(0)", false, false, func(o interface{}) interface{} { return o.(ring.Sampler).AtLevel(0) }},
+				{"AtLevel(1).AtLevel(0)", false, false, func(o interface{}) interface{} { return o.(ring.Sampler).AtLevel(1).AtLevel(0) }},
+			}})
+		}
+	}
+
 	// rgsw.Encryptor: an RGSW encryption of X by the copy must act like one by the original (external product, noise class)
 	out = append(out, &subject{name: "rgsw.Encryptor", orig: rgsw.NewEncryptor(p, f.sk), ops: []op{
 		{"Encrypt X, external product, noise class", func(o interface{}) (string, error) {
